@@ -1234,3 +1234,31 @@ def function_tables(prog, part, cpart, x, w, c):
         fvals.append(row)
         out.append(jrow)
     return out
+
+
+def check_rules(chk):
+    """Have TLC confirm (RuleCheck.tla) that the oracle's own exact rules are exact.  MachineryError otherwise."""
+    jobs = []
+    for cell, degs in (("interval", range(0, 7)), ("triangle", range(0, 5)), ("quadrilateral", range(0, 5)),
+                       ("tetrahedron", range(0, 4)), ("hexahedron", range(0, 4))):
+        for d in degs:
+            p, w = ratrules.rule(cell, d)
+            jobs.append({"cell": cell, "deg": d, "pts": [[fr(c) for c in q] for q in p], "wts": [fr(x) for x in w], "src": "ratrules"})
+            br = basix_rational_rule(cell, d, "default")
+            if br is not None:
+                jobs.append({"cell": cell, "deg": d, "pts": [[fr(c) for c in q] for q in br[0]], "wts": [fr(x) for x in br[1]], "src": "basix"})
+    dd = tlc.stage("rulecheck", ["Rational", "RuleCheck"])
+    f = dd / "rules.json"
+    f.write_text(json.dumps(jobs))
+    r = tlc.run(dd, "RuleCheck", cfg_text="SPECIFICATION Spec\n", workers=4, env={"RULE_FILE": str(f)}, timeout=900)
+    got = {}
+    for s_ in r.printed:
+        v = tlc.parse_tla(s_)
+        if v[0] == "RULE":
+            got[v[1] - 1] = v[2]
+    if len(got) != len(jobs):
+        raise MachineryError("RuleCheck.tla incomplete:\n" + "\n".join(r.out.splitlines()[-25:]))
+    bad = [(jobs[i]["cell"], jobs[i]["deg"], jobs[i]["src"]) for i, ok in got.items() if ok is not True]
+    if bad:
+        raise MachineryError(f"oracle quadrature rules that are not exact: {bad}")
+    chk.add(states=r.distinct, transitions=r.generated, oracle_rules_verified=len(jobs))
